@@ -2,7 +2,7 @@
 # tools/seed_harvest.sh <ID> "<test files to run (space separated, relative to ghedesigner/tests)>" [check ids...]
 # Confirms a seeded change delivered in /tmp/seed_<ID>/_seed (patch.diff + demo.py) on a clean scratch copy of /repo HEAD.
 id=$1; tests=$2; shift 2
-src=/tmp/seed_$id/_seed
+src=${SEEDP:-/tmp/seed_}$id/_seed
 w=/tmp/sh_$id
 rm -rf $w; mkdir -p $w
 git -C /repo archive HEAD ghedesigner demos | tar -x -C $w
